@@ -501,8 +501,8 @@ def run(rep, tier, seed):
 
     # 2. spec -> code
     if thorough:
-        emit_and_replay(rep, "FuelShuffle_emit.cfg", "coreS-depth3", (("hex", "full", None), ("hex", "third", 60), ("cartesian", "full", 60)), rng)
-        emit_and_replay(rep, "FuelShuffle_emitT.cfg", "coreT-depth3", (("hex", "full", 160), ("hex", "third", 50), ("cartesian", "full", 50)), rng)
+        emit_and_replay(rep, "FuelShuffle_emit.cfg", "coreS-depth3", (("hex", "full", None), ("hex", "third", 40), ("cartesian", "full", 40)), rng)
+        emit_and_replay(rep, "FuelShuffle_emitT.cfg", "coreT-depth3", (("hex", "full", 100), ("hex", "third", 30), ("cartesian", "full", 30)), rng)
     else:
         emit_and_replay(rep, "FuelShuffle_emit.cfg", "coreS-depth3", (("hex", "full", 22), ("hex", "third", 11), ("cartesian", "full", 11)), rng)
 
@@ -518,8 +518,9 @@ def run(rep, tier, seed):
             cfgs[cfgfile] = trace_config(cfgfile)
         ad = CoreAdapter(cfgs[cfgfile], geom=geom, symmetry=symmetry)
         traces = record_traces(ad, ntr, nev, seed + 31 * i, "t%d-" % i)
-        if not traces or not any(t["ev"] for t in traces):
-            raise tlc.MachineryError("empty trace batch " + label)
+        kinds = {e["a"]["n"] for t in traces for e in t["ev"]}
+        if not traces or kinds != set(CALLS):
+            raise tlc.MachineryError("vacuous trace batch %s: calls made %s" % (label, sorted(kinds)))
         validate_traces(rep, label, cfgfile, traces, cfgs[cfgfile], geom, symmetry)
         if i == 0:
             t0 = traces[0]
